@@ -59,6 +59,7 @@ const (
 	OFpIsNaN
 	OFpToSInt // FP -> BV64, amd64 cvttsd2sq semantics
 	OFpSame   // SMT = on FP: same value incl. sign of zero
+	OFpOfSIntR // BV64 (signed) -> FP, RNE, possibly inexact (no integer shortcuts)
 )
 
 const (
@@ -589,6 +590,13 @@ func (tt *TermTable) FpOfSInt(i *Term) *Term {
 	return tt.mk(&Term{op: OFpOfSInt, w: SortFP, args: []*Term{i}})
 }
 
+func (tt *TermTable) FpOfSIntR(i *Term) *Term {
+	if i.IsConst() {
+		return tt.FPConst(float64(i.SVal()))
+	}
+	return tt.mk(&Term{op: OFpOfSIntR, w: SortFP, args: []*Term{i}})
+}
+
 func fpc(t *Term) float64 { return math.Float64frombits(t.val) }
 
 func (tt *TermTable) FpBin(op Op, a, b *Term) *Term {
@@ -770,7 +778,7 @@ func (t *Term) smt(sb *strings.Builder) {
 		sb.WriteString("((_ to_fp 11 53) ")
 		t.args[0].smt(sb)
 		sb.WriteString(")")
-	case OFpOfSInt:
+	case OFpOfSInt, OFpOfSIntR:
 		sb.WriteString("((_ to_fp 11 53) RNE ")
 		t.args[0].smt(sb)
 		sb.WriteString(")")
@@ -964,7 +972,7 @@ func (t *Term) Eval(m Model) (uint64, bool) {
 		return uint64(sx(0)) & mask(w), true
 	case OFpOfBits:
 		return vs[0], true
-	case OFpOfSInt:
+	case OFpOfSInt, OFpOfSIntR:
 		return math.Float64bits(float64(int64(vs[0]))), true
 	case OFpSub:
 		return math.Float64bits(math.Float64frombits(vs[0]) - math.Float64frombits(vs[1])), true
